@@ -46,7 +46,9 @@ def _check(ctx: Ctx) -> None:
         "Structural necessary conditions of C05 on AbsoluteSequence.quantise: KEY1/KEY2 the open-note and timing "
         "dictionaries are indexed by channel and pitch (key-domain analysis); IDX1 the index list fed to the "
         "shifted-pop removal loop is provably ascending; GRID every time written (attribute store or Message(time=)) "
-        "is provably a multiple of a step size (provenance lattice GRID/ORIG/OFFGRID); KEEP every non-note message "
+        "is provably a multiple of a step size (provenance lattice GRID/ORIG/OFFGRID); NEAR the candidates are, per step size, "
+        "floor(time/step)*step and that plus one step (normal forms), i.e. the two grid points enclosing the event; ARGMIN the choice "
+        "function has the argmin shape; KEEP every non-note message "
         "is appended to the output exactly once on every path and never enters the removal list (per-type abstract "
         "execution); SORT the rewrite of the event list is followed by the canonical re-sort on every exit. "
         "Not decided: nearest-position choice, displacement bound after the smothering filter, survival rule, "
@@ -89,6 +91,9 @@ def _check(ctx: Ctx) -> None:
         else:
             ctx.undetermined("GRID", inst, f"kind {k}: provenance not recognised, not judged")
     ctx.floor("time writes in quantise judged (proven on-grid or proven off-grid)", n_grid + n_bad, 3)
+
+    # --- NEAR: the candidates are the grid position at or below the event and the next one above, per step size
+    near_rule(ctx, fi)
 
     # --- KEEP
     loop = message_loop(fi.node)
@@ -153,6 +158,55 @@ def _check(ctx: Ctx) -> None:
               construct="event list rewritten without a following canonical sort",
               message="self._messages is replaced and an exit is reachable without re-sorting it", file=fi.file,
               node=bad[0][1] if bad else fi.node)
+
+
+def near_rule(ctx: Ctx, fi) -> None:
+    from ..linear import Normaliser, Sym
+    loop = message_loop(fi.node)
+    if loop is None:
+        return
+    m = loop.target.id
+    nz = Normaliser()
+    nz.run_block([s_ for s_ in loop.body if isinstance(s_, ast.Assign) and isinstance(s_.targets[0], ast.Name) and not isinstance(s_.value, (ast.ListComp, ast.List))])
+    comps = [s_ for s_ in loop.body if isinstance(s_, ast.Assign) and isinstance(s_.targets[0], ast.Name) and isinstance(s_.value, ast.ListComp)]
+    floor_lists, ceil_lists = {}, {}
+    t = Sym.atom(f"{m}.time")
+    for c in comps:
+        lc = c.value
+        g = lc.generators[0]
+        if len(lc.generators) != 1:
+            continue
+        tv = g.target.id if isinstance(g.target, ast.Name) else None
+        esym = nz.norm(lc.elt)
+        e = esym.canon()
+        floor_sym = (Sym.atom(tv) * Sym.atom(f"floordiv({t.canon()},{tv})")) if tv else None
+        if tv and esym == floor_sym:
+            floor_lists[c.targets[0].id] = (c, src(g.iter))
+        elif tv and isinstance(g.iter, ast.Call) and isinstance(g.iter.func, ast.Name) and g.iter.func.id == "range":
+            # [left[i] + steps[i] for i in range(len(steps))]
+            for fl, (_, steps) in floor_lists.items():
+                if e in (f"{fl}[{tv}] + {steps}[{tv}]", f"{steps}[{tv}] + {fl}[{tv}]"):
+                    ceil_lists[c.targets[0].id] = (c, fl)
+        elif tv:
+            for fl, (_, steps) in floor_lists.items():
+                if src(g.iter) == steps and esym == floor_sym + Sym.atom(tv):
+                    ceil_lists[c.targets[0].id] = (c, fl)
+    step_param = fi.params[1] if len(fi.params) > 1 else "step_sizes"
+    in_idiom = any(step_param in {n.id for n in ast.walk(c.value.generators[0].iter) if isinstance(n, ast.Name)} for c in comps)
+    if not floor_lists and not ceil_lists and not in_idiom:
+        ctx.undetermined("NEAR", f"{FN}: candidate positions", "candidate lists not in the recognised comprehension form: not judged")
+        return
+    ctx.check(len(floor_lists) == 1, "NEAR", f"{FN}: lower candidates are (time // step) * step for every step size ({sorted(floor_lists)})", function=FN,
+              construct="lower grid candidates are not floor(time / step) * step", message=f"{[short(c.value, 80) for c in comps]}", file=fi.file,
+              node=comps[0] if comps else fi.node)
+    ctx.check(len(ceil_lists) == 1, "NEAR", f"{FN}: upper candidates are the lower candidate plus its step ({sorted(ceil_lists)})", function=FN,
+              construct="upper grid candidates are not the lower candidate plus one step",
+              message=f"{[short(c.value, 80) for c in comps]}: an event could be moved by more than one step", file=fi.file, node=comps[-1] if comps else fi.node)
+    # both lists feed the candidate set
+    both = [s_ for s_ in loop.body if isinstance(s_, ast.Assign) and isinstance(s_.value, ast.BinOp) and isinstance(s_.value.op, ast.Add)
+            and {n.id for n in ast.walk(s_.value) if isinstance(n, ast.Name)} >= (set(floor_lists) | set(ceil_lists))]
+    ctx.check(bool(both) or not (floor_lists and ceil_lists), "NEAR", f"{FN}: lower and upper candidates are both offered", function=FN,
+              construct="candidate set omits the lower or the upper grid positions", message="", file=fi.file, node=loop)
 
 
 def _extra(ctx):
